@@ -304,6 +304,50 @@ def cli_cases(tier):
     return out + more
 
 
+# ---- one probe connection of the modulus test fails to come up (refused, reset, cut inside the banner or the KEXINIT): the verdict is the
+# one the documented probe sequence gives with exactly that probe lost (props/c12.py holds the sequence model)
+def gex_lost_probe_tasks():
+    from props import c12
+    out = []
+    for sub, style, banner in (((768, 1024, 2048), P.PREFER, 'other'), ((3072, 4096), P.OPENSSH, 'openssh'), ((768, 1536), P.PREFER, 'other'), ((1024, 2048), P.STRICT, 'other')):
+        conn_alg, _n = c12._baseline(sub, style, banner)
+        for fconn in sorted(c for c in conn_alg if conn_alg[c]):
+            for fmsg, fault in ((-1, ('refuse',)), (0, ('reset',)), (0, ('trunc_close', 0)), (1, ('trunc_close', 9)), (1, ('trunc_stall', 9)), (0, ('trunc_close', 5))):
+                out.append((sub, style, banner, fconn, fmsg, fault))
+    return out
+
+
+def work_gex_lost_probe(chunk, st):
+    from props import c12
+    for sub, style, banner, fconn, fmsg, fault in chunk:
+        conn_alg, _n = c12._baseline(sub, style, banner)
+        alg = conn_alg[fconn]
+        k = len([i for i in conn_alg if conn_alg[i] == alg and i < fconn])
+        gex = c12.make_server(sub, style, 'both', banner).gex
+        want = c12.model_audit(gex, banner, (alg, k, 'setup'))
+        free = c12.model_audit(gex, banner)
+        measured = {a: want[a][1] for a in want}
+        cands = sorted(set(v for v in list(measured.values()) + [free[a][1] for a in free] if v))
+        for sizes in [{c12.SHA1: x, c12.SHA256: y} for x in cands for y in cands]:
+            for fmt in ('text', 'json'):
+                pol = {'dh_modulus_sizes': sizes}
+                path = H.tmp_path('c06-lost-probe-policy.txt')
+                with open(path, 'w') as f:
+                    f.write(R.policy_text(pol))
+                srv = c12.make_server(sub, style, 'both', banner)
+                res = H.audit(srv, opts=['-n', '--skip-rate-test', '-P', path] + (['-j'] if fmt == 'json' else []), faults={(srv.label, fconn, fmsg): fault})
+                root = ('gex-lost-probe', sub, style, banner, fconn, fmsg, fault, tuple(sorted(sizes.items())), fmt)
+                st.execution(res.world, outcome=('gex-lost-probe', res.status, fmt), root=root, nontrivial=root)
+                bad = sorted(a for a in sizes if measured.get(a) is not None and measured[a] != sizes[a])
+                exp = 3 if bad else 0
+                d = {'moduli': list(sub), 'style': style, 'lost_probe': [alg, k], 'fault': [fconn, fmsg] + list(fault), 'policy_sizes': sizes, 'sizes_the_sequence_measures': measured, 'fmt': fmt, 'status': res.status}
+                if res.hang or res.exc or res.status not in (0, 3):
+                    st.violation('gex-lost-probe:no-verdict', dict(d, hang=res.hang, tail=res.stdout[-200:]))
+                elif res.status != exp:
+                    st.violation('gex-lost-probe:verdict-differs:%s' % ('false-pass' if exp == 3 else 'false-fail'), dict(d, expected_failing_fields=bad, stdout_tail=res.stdout[-300:]))
+    st.sample({'gex_lost_probe': [list(chunk[0][0]), chunk[0][3], chunk[0][4], list(chunk[0][5])]}, cap=4)
+
+
 def gex_split_cases():
     """the two group-exchange methods served from different moduli (every ordered pair of sizes): the policy's modulus sizes are compared
     with what each method really hands out"""
@@ -503,6 +547,7 @@ def run(tier, seed):
     seqs = [(k, sub, f) for n in (2, 3) for k in itertools.product(list(SEQ_PEERS), repeat=n) for sub in (False, True) for f in ('json', 'text')
             if n == 2 or tier != 'quick' or k[0] == 'ok']
     par.pmap(work_sequences, seqs, stats=st, chunk=4)
+    par.pmap(work_gex_lost_probe, gex_lost_probe_tasks(), stats=st, chunk=3)
     vcases = []
     for family, pol, peer, fmt in H.pick([c for c in cc if c[3] in ('json', 'text')], seed, 16 if tier == 'quick' else 80):
         path = H.tmp_path('c06-val-%d.txt' % len(vcases))
